@@ -348,6 +348,15 @@ pub fn parse(text: &str) -> Result<J, ParseError> {
     Ok(v)
 }
 
+/// Parse one value at the start of `text` (after optional whitespace); returns it and the number
+/// of bytes consumed.
+pub fn parse_prefix(text: &str) -> Result<(J, usize), ParseError> {
+    let mut p = P { b: text.as_bytes(), s: text, i: 0 };
+    p.ws();
+    let v = p.value(0)?;
+    Ok((v, p.i))
+}
+
 struct P<'a> {
     b: &'a [u8],
     s: &'a str,
